@@ -244,6 +244,37 @@ pub fn run(tier: Tier) -> i32 {
     let n_struct = cases.len() - n_before_struct;
     let n_single = cases.len() - n_struct;
 
+    // 1d. every row of the device table x every memory: one unit, filled exactly, one beyond, a
+    //     position at / beyond the end - devices without RAM or EEPROM included (sizes of zero
+    //     are where ratios and "almost full" computations divide)
+    let n_before_dev = cases.len();
+    for d in crate::sut::devices() {
+        let fw = d.flash_words as usize;
+        let mut progs: Vec<String> = vec![
+            ".dseg\nv_q: .byte 1\n".to_string(),
+            ".dseg\n.org 0x70\nv_q: .byte 1\n".to_string(),
+            format!(".dseg\nv_q: .byte {}\n", d.ram_size),
+            format!(".dseg\nv_q: .byte {}\n", d.ram_size as u64 + 1),
+            format!(".dseg\nv_q: .byte {}\nw_q: .byte 1\n", d.ram_size.max(1) - 1),
+            ".eseg\ne_q: .db 1\n".to_string(),
+            format!(".eseg\ne_q: .byte {}\n", d.eeprom_size),
+            format!(".eseg\ne_q: .byte {}\n.db 1\n", d.eeprom_size),
+            format!(".eseg\n.org {}\n.db 1\n", d.eeprom_size.max(1) - 1),
+            format!(".org {}\nnop\n", fw - 1),
+            format!(".org {}\nnop\nnop\n", fw - 1),
+            format!(".org {}\n.dw 1\n", fw),
+            "nop\n.dseg\n.eseg\n.cseg\n".to_string(),
+        ];
+        if fw <= 8192 {
+            progs.push(format!(".dw 0{}\n", ",0".repeat(255)).repeat(fw / 256));
+            progs.push(format!("{}nop\n", format!(".dw 0{}\n", ",0".repeat(255)).repeat(fw / 256)));
+        }
+        for ptext in progs {
+            push(&mut cases, &mut meta, format!(".device {}\n{}", d.name, ptext), Meta { origin: "device-memory", head: ".device".to_string(), nops: 1, ctx: "none", probe: String::new() });
+        }
+    }
+    let n_dev_mem = cases.len() - n_before_dev;
+
     // 2. structured size probes (geometric ladders, texts up to 64 KiB)
     let ladder = [10usize, 100, 1000, 10000, 30000];
     let mut probe = |cases: &mut Vec<Case>, meta: &mut Vec<Meta>, name: &str, n: usize, text: String| {
@@ -318,6 +349,27 @@ pub fn run(tier: Tier) -> i32 {
                 s.push_str(&format!(".macro dm{}\ndm{}\ndm{}\n.endm\n", i, i - 1, i - 1));
             }
             s.push_str(&format!(".device ATtiny13\ndm{}\n", m));
+            s
+        });
+        // a tower that stays below every per-call budget, called again and again: the work of a
+        // program is bounded as a whole, not per line of source
+        probe(&mut cases, &mut meta, "empty-macro-tower-called-many-times", n, {
+            let calls = [1usize, 4, 32, 256, 2048][ladder.iter().position(|x| *x == n).unwrap_or(0)];
+            let mut s = String::from(".macro tw0\n.endm\n");
+            for i in 1..=17 {
+                s.push_str(&format!(".macro tw{}\ntw{}\ntw{}\n.endm\n", i, i - 1, i - 1));
+            }
+            s.push_str(&"tw17\n".repeat(calls));
+            s.push_str("nop\n");
+            s
+        });
+        probe(&mut cases, &mut meta, "message-macro-tower-called-many-times", n, {
+            let calls = [1usize, 4, 32, 256, 2048][ladder.iter().position(|x| *x == n).unwrap_or(0)];
+            let mut s = String::from(".macro tv0\n.message \"x\"\n.endm\n");
+            for i in 1..=12 {
+                s.push_str(&format!(".macro tv{}\ntv{}\ntv{}\n.endm\n", i, i - 1, i - 1));
+            }
+            s.push_str(&"tv12\n".repeat(calls));
             s
         });
         // doubling chains whose bodies place nothing, and an argument that doubles per level
@@ -465,7 +517,7 @@ pub fn run(tier: Tier) -> i32 {
             meta.push(Meta { origin: "size-probe", head: String::new(), nops: 0, ctx: "none", probe: format!("include-chain/n={}", n) });
         }
     }
-    let n_probe = cases.len() - n_single - n_struct;
+    let n_probe = cases.len() - n_single - n_struct - n_dev_mem;
 
     // 3. E3 on the corpus: every single token deleted / duplicated / replaced by every dictionary entry
     let known = |m: &str| isa::known_mnemonic(m);
@@ -524,7 +576,7 @@ pub fn run(tier: Tier) -> i32 {
             n_bytemut += 1;
         }
     }
-    let n_mut = cases.len() - n_single - n_probe - n_bytemut - n_struct;
+    let n_mut = cases.len() - n_single - n_probe - n_bytemut - n_struct - n_dev_mem;
 
     // run everything in the sandbox
     let cache: Mutex<BTreeMap<String, Vec<String>>> = Mutex::new(BTreeMap::new());
@@ -681,6 +733,7 @@ pub fn run(tier: Tier) -> i32 {
         "rule": "every single-line program head x operand list of length 0..2 (thorough 0..3, third operand from a reduced dictionary) over a 54-text dictionary of valid, boundary and hostile operands x 10 context prefixes (segments, reduced and Tiny1x devices, cyclic .equ, self- and mutually-calling macros, open .if 0 / .macro, definitions), heads = every mnemonic and every directive in both '.' and '#' spelling + unknown names; geometric size ladders (nesting depth of parentheses/unary/function chains, left/right-leaning operator chains, operand-list, line, label, string and number lengths, line counts, nested conditionals, .equ chains, macro and include nesting, .org/.byte magnitudes 2^8..2^63 +-1 and negative); every single token of every corpus program deleted, duplicated and replaced by every dictionary entry. Each case runs in a sandboxed worker. distinct_nontrivial = distinct source texts",
         "exhaustive": true,
         "single_line_programs": n_single,
+        "device_row_times_memory_programs": n_dev_mem,
         "size_probes": n_probe,
         "structural_line_sequences": n_struct,
         "corpus_token_mutations": n_mut,
